@@ -181,6 +181,39 @@ def run(tier):
     check.cov["worker_restarts"] = wp.restarts
     check.cov["traces_validated_against_impl"] = len(lc)
     check.sample({"origin": "lexer transition cover", "path": lc[len(lc) // 2]["path"], "src": lc[len(lc) // 2]["src"].decode("latin-1")})
+    # (f) long runs: every scanner mode (context) x a unit repeated 40 000 and 160 000 times' worth of bytes.  A helper that looks
+    # back over the run for every byte of it (escape counting, label matching, look-behind) is quadratic only here.
+    units = [b"\\", b"$", b"{", b"}", b" ", b"\n", b"\r", b"a", b"0", b'"', b"'", b"`", b"<", b"?", b"/", b"*", b"#", b"-", b">", b"[", b"\x80", b"_", b".", b"=", b"(",
+             b"\\$", b"{$", b"$a", b"?>", b"<?", b"*/", b"/*", b"->", b"\r\n", b"::", b"\\\"", b"E\n", b"EOT\n", b"\nE", b"${", b"$a["]
+    if tier == "quick":
+        units = units[:25] + units[25::2]
+    tt = []
+    for name, pre, suf in SWEEP_CONTEXTS:
+        for u in units:
+            for size in (40000, 160000):
+                src = pre + u * (size // len(u)) + suf
+                tt.append({"op": "timing", "src": src.decode("latin-1"), "ver": "7.4" if len(tt) % 4 < 2 else "5.6", "limit_ms": 60000, "_k": (name, u, size)})
+    by = {}
+    for t, r in zip(tt, wp.run([{k: v for k, v in t.items() if k != "_k"} for t in tt])):
+        check.count()
+        name, u, size = t["_k"]
+        if r.get("hang"):
+            check.violation({"class": "hang", "family": "long-run"}, {"context": name, "unit": u.decode("latin-1"), "bytes": size, "ver": t["ver"], "observed": r})
+        elif r.get("panic") or r.get("crash"):
+            check.violation({"class": "panic", "site": r.get("site") or "runtime-fatal", "family": family(t["src"].encode("latin-1"), t["ver"])},
+                            {"context": name, "unit": u.decode("latin-1"), "bytes": size, "ver": t["ver"], "observed": r})
+        else:
+            by.setdefault((name, u), {})[size] = r.get("ms", 0.0)
+    worst = 0.0
+    for (name, u), d in by.items():
+        if 40000 in d and 160000 in d:
+            ratio = d[160000] / max(d[40000], 0.05)
+            worst = max(worst, ratio if d[160000] > 100 else 0.0)
+            # four times the input in more than 12 times the time, and slow in absolute terms (>= 1.5 us per byte): not "roughly proportional"
+            if ratio > 12 and d[160000] > 250:
+                check.violation({"class": "superlinear", "family": "long-run"}, {"context": name, "unit": u.decode("latin-1"), "ms_40k": d[40000], "ms_160k": d[160000]})
+    check.cov["long_run_inputs"] = len(tt)
+    check.cov["long_run_worst_ratio_4x"] = round(worst, 2)
     # scaling (thorough): time must grow roughly linearly
     if tier == "thorough":
         unit = b"<?php function f($a) { if ($a) { return \"x $a[1] {$a->b}\"; } /* c */ return [1, 2.5, 'k' => $a]; }\n?>\n<b>html</b>\n"
